@@ -352,6 +352,7 @@ impl Property for Univ {
                     v.push(Box::new(NumExh { maxlen: 4 }));
                 }
             }
+            "C07" | "C16" => v.push(Box::new(HexExh { three: thorough })),
             "C19" => {
                 v.push(Box::new(crate::props::meta::ThreadsSweep { seed: mix2(seed, 0x19), batches: if thorough { 96 } else { 12 } }));
                 v.push(Box::new(crate::props::meta::FreshProcessSweep { seed: mix2(seed, 0x1920), batches: if thorough { 64 } else { 8 } }));
@@ -762,6 +763,40 @@ impl Sweep for BigInput {
             i += 1;
         }
         f(Case::text("big-input", s));
+    }
+}
+
+/// every hex string literal of one and two bytes (all 256 / 65536 values; upper-case digits for the first byte and
+/// lower-case for the second, so both digit cases of every value occur), single- and double-quoted, bare and inside a call
+/// argument; with `three`, also every three-byte literal whose first byte is a UTF-8 three-byte lead (E0..EF)
+pub struct HexExh {
+    pub three: bool,
+}
+impl Sweep for HexExh {
+    fn name(&self) -> String {
+        format!("exhaustive: every hex string literal of 1 and 2 bytes{}", if self.three { " and every 3-byte literal with lead E0..EF" } else { "" })
+    }
+    fn chunks(&self) -> usize {
+        256
+    }
+    fn run_chunk(&self, chunk: usize, f: &mut dyn FnMut(Case)) {
+        let a = chunk;
+        let mut emit = |body: String, k: usize| {
+            let t = match k % 4 { 0 => format!("'{body}'x"), 1 => format!("\"{body}\"X;"), 2 => format!("%m('{body}'x)"), _ => format!("x=\"{body}\"x;") };
+            f(Case::text("hex-exhaustive", t));
+        };
+        emit(format!("{a:02X}"), a);
+        emit(format!("{a:02x}"), a + 1);
+        for b in 0..256usize {
+            emit(format!("{a:02X}{b:02x}"), a + b);
+            if b % 16 == 0 { emit(format!("{a:02x},{b:02X}"), a + b + 1); }
+        }
+        if self.three && (0xE0..=0xEF).contains(&a) {
+            for b in 0x80..0xC0usize { for c in 0..256usize { emit(format!("{a:02X}{b:02x}{c:02X}"), b + c); } }
+        }
+    }
+    fn exhaustive(&self) -> bool {
+        true
     }
 }
 
